@@ -133,6 +133,19 @@ def run(ck):
         for t in ['CCO.CCN', 'CCO.CCN.CCS', 'CC.CC.CC', 'CCOCC.NCCN', 'OCCO.OCCO', 'CCN.CCN.CCO.CCS']:
             for k in range(3):
                 cases.append({'key': f'{q}|{t}|scoped{k}', 'q': q, 't': t, 'thiele': False, 'filter': k == 2, 'scope': True, 'rs': rnd.randrange(1 << 30)})
+    # every tabulated isotope as a query atom against the same element with that label, another label and none: the isotope field
+    # of the layout (offsets -8..+8 from the reference isotope; quick: the offsets at and next to the ends of the field, and a sample)
+    from chython.periodictable import Element
+    for z in range(1, 117):
+        e = Element.from_atomic_number(z)()
+        sym, ref, isos = e.atomic_symbol, e.mdl_isotope, sorted(e.isotopes_distribution)
+        for iso in isos:
+            if ck.quick and abs(iso - ref) < 7 and (z * 31 + iso) % 9:
+                continue
+            other = [x for x in isos if x != iso][:1]
+            t = '.'.join([f'[{iso}{sym}]'] + [f'[{x}{sym}]' for x in other] + [f'[{sym}]'])
+            for q in (f'[{iso}{sym}]', f'[{iso}{sym};D0]'):
+                cases.append({'key': f'{q}|{t}', 'q': q, 't': t, 'thiele': False, 'filter': False, 'scope': False, 'rs': rnd.randrange(1 << 30)})
     cases = ck.select('compiled-vs-reference', cases)
     if cases:
         res = vlib.pmap('checks.c09', 'observe', cases)
